@@ -339,6 +339,8 @@ def run(seed=0, rounds=3):
                 bad.append("masked_select %s: %s: %s" % (nm_, type(e).__name__, str(e)[:120]))
         admits("max over a vector", lambda I, a: M["max"](I, a), lambda a: a.max(), [(rt((Bd,), "long"), "long")],
                lambda I: [mx["ub"](z3.IntVal(j)) for mx in I.ex.ghost.get("maxes", []) for j in range(3)])
+        admits("max dim 1 (values, indices)", lambda I, a: tuple(M["max"](I, a, 1)), lambda a: tuple(a.max(1)), F_,
+               lambda I: [y_ for mx in I.ex.ghost.get("dim_maxes", []) for o in range(3) for y_ in [mx["att"]([z3.IntVal(o)])] + [mx["ub"]([z3.IntVal(o)], z3.IntVal(j)) for j in range(3)]])
         admits("integer sum dim 1", lambda I, a: M["sum"](I, a, 1), lambda a: a.sum(1), [(xi, "long")], sum_insts)
         admits("Boolean sum dim 1", lambda I, a: M["sum"](I, a, 1), lambda a: a.sum(1), [(b, "bool")], sum_insts)
 
